@@ -35,6 +35,10 @@ def universes(tier, base="StateMachine"):
 class SMHooks:
     """Collects the observable events of one client call and plays the in-state action scripts."""
 
+    module = MODULE
+    api = API
+    script_apis = ("next_state", "next_state_now", "done")
+
     def __init__(self, specs, max_script=1, max_nest=1):
         self.specs = {s.name: s for s in specs}
         self.targets = [s.name for s in specs if s.kind != "default"]
@@ -49,7 +53,7 @@ class SMHooks:
 
     # -- API calls with caller context
     def on_enter(self, it, f, vals, node):
-        if f.name in API and f.owner is not None and f.module.name == MODULE:
+        if f.name in self.api and f.owner is not None and f.module.name == self.module:
             ctx = self.origin
             self.stack.append((f, self.origin))
             # calls made by the iteration logic itself are 'engine'; thin public wrappers
@@ -121,7 +125,7 @@ class SMHooks:
         opts = [("none",)]
         for t in self.targets:
             opts.append(("next_state", t))
-        if self.fn_depth <= self.max_nest:
+        if self.fn_depth <= self.max_nest and "next_state_now" in self.script_apis:
             for t in self.targets:
                 opts.append(("next_state_now", t))
         opts.append(("done",))
